@@ -17,6 +17,10 @@ for d in sorted(glob.glob(os.path.join(V, "seeded", "*"))):
             det.append(f"**{c}**: exit 1, {kind}")
         else:
             det.append(f"{c}: NOT caught (exit {v['exit']})")
+    if not m.get("confirmed", {}).get("valid_mutant", True):
+        det.append("(on the latest tree the recorded demonstration no longer discriminates: a later fix: commit changed the behaviour it relied on; validity was confirmed on the tree the change was written for)")
+    if m.get("latest_recheck", {}).get("applies") is False:
+        det.append("(patch no longer applies to the latest tree: the lines it changes were rewritten by a later fix: commit)")
     rows.append(f"| {name} | {m['property']} | {', '.join(files)} | {need} | {'; '.join(det)} |")
 seeded = "| seeded change | property | files | what it is / what it needs to manifest | which check catches it |\n|---|---|---|---|---|\n" + "\n".join(rows)
 known = []
